@@ -137,6 +137,28 @@ where
         }
     }
 
+    /// Evict the records that [`Self::evict`] leaves behind.
+    ///
+    /// An eviction algorithm may not offer a record as a victim while handles to it are alive (LRU pins it), so
+    /// `evict(0, ..)` does not necessarily empty the shard. A flush must offload the whole resident set.
+    fn evict_rest(&mut self, garbages: &mut Vec<(Event, Arc<Record<E>>)>) {
+        for record in self.indexer.drain().collect_vec() {
+            if record.is_in_eviction() {
+                self.eviction.remove(&record);
+            }
+            strict_assert!(!record.is_in_indexer());
+            strict_assert!(!record.is_in_eviction());
+
+            self.metrics.memory_evict.increase(1);
+
+            self.usage -= record.weight();
+            self.entries -= 1;
+            self.metrics.memory_entries.decrease(1);
+
+            garbages.push((Event::Evict, record));
+        }
+    }
+
     /// Insert the record.
     ///
     /// `fetch` is the id of the in-flight fetch that produced the record, if any: the result of a fetch is dropped
@@ -681,7 +703,10 @@ where
     pub async fn flush(&self) {
         let mut garbages = vec![];
         for shard in self.inner.shards.iter() {
-            shard.write().evict(0, &mut garbages);
+            let mut shard = shard.write();
+            shard.evict(0, &mut garbages);
+            // Records that are still referenced may have been skipped: they are part of what a flush has to offload.
+            shard.evict_rest(&mut garbages);
         }
 
         // Deallocate data out of the lock critical section.
